@@ -84,6 +84,23 @@ func check(c *mon.Ctx, s []byte, class string) {
 
 var coldDone bool
 
+// asReceived applies the validity condition the way a receiver does: the section is the 3 header bytes plus the
+// section_length bytes they announce, and the checksum over exactly those is zero. (Sections that no 12-bit
+// section_length can describe - alignment stuffing beyond 4093 bytes - are left to the whole-slice check.)
+func asReceived(sec []byte) string {
+	if len(sec) < 7 || len(sec) > 4096 {
+		return ""
+	}
+	l := 3 + (int(sec[1]&0x0f)<<8 | int(sec[2]))
+	if l > len(sec) || l < 7 {
+		return fmt.Sprintf("section_length announces %d bytes after the header, %d were emitted", l-3, len(sec)-3)
+	}
+	if ref.CRC32MPEG2(sec[:l]) != 0 {
+		return fmt.Sprintf("section_length announces %d bytes after the header (%d were emitted) and the CRC-32/MPEG-2 over the section so delimited is not zero", l-3, len(sec)-3)
+	}
+	return ""
+}
+
 func run(c *mon.Ctx) {
 	if !ref.CRCSelfTest() {
 		panic("reference CRC self-test failed")
@@ -208,6 +225,7 @@ func run(c *mon.Ctx) {
 		}
 		c.Class("concurrent-callers")
 	})
+	c.Floor("emitted_scte35.encoded_again_with_another_length", 300)
 	c.Stream("emitted-scte35", c.N(2000, 1000000), func(i int, r *gen.Rand) {
 		s := scte35.CreateSCTE35()
 		s.SetTier(uint16(r.Intn(4096)))
@@ -264,6 +282,8 @@ func run(c *mon.Ctx) {
 		c.Eval(1)
 		if len(sec) < 4 || ref.CRC32MPEG2(sec) != 0 {
 			c.Fail("crc:emitted-scte35", "the CRC-32/MPEG-2 of a section emitted by UpdateData is not zero", wit{Input: mon.Hex(sec)})
+		} else if why := asReceived(sec); why != "" {
+			c.Fail("crc:emitted-scte35-as-a-receiver-delimits-it", "a section emitted by UpdateData fails the receiver's check: "+why, wit{Input: mon.Hex(sec)})
 		}
 		// the sections emitted for earlier messages are still valid sections after this message was encoded
 		for _, e := range emitted {
@@ -336,8 +356,44 @@ func run(c *mon.Ctx) {
 			c.Count("emitted_scte35.second_encoding_after_handle_edit")
 			if len(sec2) < 4 || ref.CRC32MPEG2(sec2) != 0 {
 				c.Fail("crc:emitted-scte35-second-encoding", "the CRC-32/MPEG-2 of the section emitted by a second UpdateData, after a length-preserving change through "+edits+" is not zero", wit{Input: mon.Hex(sec2)})
+			} else if why := asReceived(sec2); why != "" {
+				c.Fail("crc:emitted-scte35-second-encoding-as-a-receiver-delimits-it", "the section emitted by a second UpdateData (after "+edits+") fails the receiver's check: "+why, wit{Input: mon.Hex(sec2)})
 			} else if bytes.Equal(sec2, first) {
 				c.Fail("crc:emitted-scte35-second-encoding-unchanged", "a change made through "+edits+" left the next encoding unchanged", wit{Input: mon.Hex(sec2)})
+			}
+		}
+		// ... and once more after a change that makes the section longer or shorter
+		if r.Bool() && len(lastSec) < 3900 {
+			how := ""
+			switch k := r.Intn(3); {
+			case k == 0 && len(ds) > 0:
+				d := ds[r.Intn(len(ds))]
+				d.SetHasDuration(!d.HasDuration())
+				how = "descriptor.SetHasDuration(toggled)"
+			case k == 1 && len(ds) > 0:
+				d := ds[r.Intn(len(ds))]
+				d.SetUPIDType(scte35.SegUPIDURN)
+				d.SetUPID(r.Bytes(1 + r.Intn(40)))
+				how = "descriptor.SetUPID(another length)"
+			default:
+				ns := r.Intn(9)
+				if ns == stuff {
+					ns++
+				}
+				s.SetAlignmentStuffing(uint(ns))
+				how = "SetAlignmentStuffing(another length)"
+			}
+			before := len(lastSec)
+			sec3 := s.UpdateData()
+			lastSec = sec3
+			c.Eval(1)
+			if len(sec3) != before {
+				c.Count("emitted_scte35.encoded_again_with_another_length")
+			}
+			if len(sec3) < 4 || ref.CRC32MPEG2(sec3) != 0 {
+				c.Fail("crc:emitted-scte35-encoded-again-with-another-length", "the CRC-32/MPEG-2 of the section emitted by a further UpdateData, after "+how+", is not zero", wit{Input: mon.Hex(sec3)})
+			} else if why := asReceived(sec3); why != "" {
+				c.Fail("crc:emitted-scte35-encoded-again-with-another-length-as-a-receiver-delimits-it", "the section emitted by a further UpdateData (after "+how+") fails the receiver's check: "+why, wit{Input: mon.Hex(sec3)})
 			}
 		}
 	})
